@@ -37,6 +37,11 @@ CLAIMED["C20"] = dict(
    note="string(rune) and strconv.FormatInt are uninterpreted (UTF-8 facts for ASCII only); values assumed NUL-free (the tokenizer replaces NUL); io.StringWriter.WriteString havocs the heap; badPairs checked by bounded enumeration only",
    ref="DESIGN.md §4 C20")
 
+CLAIMED["C03"] = dict(
+   text="The ordering machinery of the cascade is under contract and proved: declarationPrecedence is the CSS table ua < user < author < author! < user!; Specificity.Less/Add are lexicographic order and component sum; weight.Less is the non-strict lexicographic order on (precedence, specificity) (lemmas: total, transitive, reflexive, so later declarations win ties); at both insertion sites of newStyleFor the stored weight is (declarationPrecedence(origin, important), specificity) and a slot is replaced only when empty or when the new weight is >= the old one; evaluateMediaQuery matches `all` or the device type; presentational hints get specificity (0,0,0). The clause 'a style attribute outranks every selector' FAILS on the real code and is recorded as a known finding (style attributes get (1,0,0)). Selector matching (C05), @import/nested rules and addPageDeclarations are NOT under contract.",
+   note="known finding recorded in known_findings.txt; newStyleFor/findStyleAttributes are checked only at the listed call/map-update sites (their other obligations are unclaimed: havoc abstraction of maps, iterators and unknown callees); machine-int-as-math",
+   ref="DESIGN.md §4 C03")
+
 NOT_YET = {}
 
 NA = {
